@@ -332,7 +332,6 @@ func c17path(p []c17op) string {
 	return strings.Join(s, " ")
 }
 
-
 // c17burstScenarios: long histories. The queue grows to N entries and is taken down again, one entry at a time
 // or by one pop-n of every size, and is used again afterwards: whatever the implementation does with its storage when
 // it has grown or shrunk (reallocation, compaction, release) happens somewhere along these, for every N up to the
